@@ -1342,6 +1342,40 @@ pub fn exp_glue(e: &mut Exp, prop: &str) {
     if prop == "C20" {
         exp_c20(e);
     }
+    if prop == "C03" || prop == "C08" || prop == "C07" {
+        // "over independent hash seeds": BuildHasherSeeded seeds that differ in any bits (also only above bit 32,
+        // only in the top bit) are different hash functions; and the hash of an AnyHash key keeps 64 bits
+        use std::hash::BuildHasher;
+        let base = (e.rng.next() % 1_000_000) as usize;
+        for d in [1usize, 1 << 16, 1 << 32, 1 << 33, 1 << 48, 1 << 63] {
+            let (a, b) = (BuildHasherSeeded::new(base), BuildHasherSeeded::new(base ^ d));
+            let same = (0..64u64).filter(|k| a.hash_one(k) == b.hash_one(k)).count();
+            e.evals += 1;
+            if same > 2 {
+                e.fails.push(format!("BuildHasherSeeded: seeds {} and {} (differing in bit {}) hash {} of 64 keys identically: not independent hash functions", base, base ^ d, d.trailing_zeros(), same));
+            }
+        }
+    }
+    if prop == "C07" {
+        // a generic key type at scale: AnyHash keys must not collide before the filter sees them (a 32-bit
+        // digest would add false positives at about n / 2^32 per probe)
+        use pdatastructs::hash_utils::AnyHash;
+        use std::hash::BuildHasher;
+        let (n, p) = (400_000usize, 1e-5f64);
+        let mut f = BloomFilter::<AnyHash, BuildHasherSeeded>::with_properties_and_hash(n, p, BuildHasherSeeded::new(1));
+        for i in 0..n as u64 {
+            let _ = f.insert(&AnyHash::new(&i));
+        }
+        let probes = 2_000_000u64;
+        let fp = (0..probes).filter(|i| f.query(&AnyHash::new(&(i + (1u64 << 40))))).count();
+        e.evals += 1;
+        e.statmax("c07.anyhash_fp_per_1e7", (fp as f64 / probes as f64 * 1e7) as u64);
+        // bound 1.3 p = 1.3e-5 -> 26 expected at most; allow 5.5 sigma
+        let lim = 1.3 * p * probes as f64;
+        if fp as f64 > lim + 5.5 * lim.sqrt() + 3.0 {
+            e.fails.push(format!("bloom<AnyHash> n={} p={}: {} false positives in {} probes exceed 1.3 p", n, p, fp, probes));
+        }
+    }
     for _ in 0..rounds {
         let keys: Vec<u64> = (0..60).map(|_| e.rng.below(200)).collect();
         let probes: Vec<u64> = (0..200).collect();
